@@ -1,6 +1,6 @@
 module verif
 
-go 1.23
+go 1.25
 
 require (
 	github.com/emersion/go-sasl v0.0.0-20241020182733-b788ff22d5a6
